@@ -41,7 +41,7 @@ IsProbe(t) == t \notin {"testify", "matryer"}
 ExpectSelected(c, g, L) ==
   IF L \notin DeclNow(c, g) THEN FALSE
   ELSE IF g \in Configured THEN Selected(c, g, L, L \in ListedLetters(g))
-  ELSE \E p \in Configured : g \in Subs[p] /\ Discovered(c, p, g) /\ Selected(c, p, L, FALSE)
+  ELSE \E p \in Configured : g \in Subs[p] /\ DiscoveredBy(c, p, g) /\ Selected(c, p, L, FALSE)
 
 Ev == Trace[l]
 IsEvent(e) == l <= Len(Trace) /\ Trace[l].ev = e /\ l' = l + 1
